@@ -32,6 +32,19 @@ type Prov struct {
 	Owner  int      `json:"owner"` // client index for bm, -1 for shared wrappers
 	Frozen bool     `json:"frozen,omitempty"`
 	Init   []uint64 `json:"init,omitempty"`
+	// Run adds a dense or strided run of values {start, count, stride} (large sets: roaring switches
+	// container kinds at 4096 elements and at 2^16 / 2^32 boundaries). Single-client workloads only.
+	Run []uint64 `json:"run,omitempty"`
+}
+
+func (p Prov) values() []uint64 {
+	vs := append([]uint64{}, p.Init...)
+	if len(p.Run) == 3 {
+		for i := uint64(0); i < p.Run[1]; i++ {
+			vs = append(vs, p.Run[0]+i*p.Run[2])
+		}
+	}
+	return vs
 }
 
 type Op struct {
@@ -107,6 +120,10 @@ func gen(r *rand.Rand) WL {
 		return w
 	}
 	w.Mode = "w1"
+	big := r.IntN(12) == 0
+	if big {
+		nc = 1
+	}
 	// providers: per client 1-2 owned (bm or, sometimes, a private wrapper), plus shared wrappers
 	for c := 0; c < nc; c++ {
 		for i := 0; i < 1+r.IntN(2); i++ {
@@ -120,6 +137,17 @@ func gen(r *rand.Rand) WL {
 	ns := 1 + r.IntN(3)
 	for i := 0; i < ns; i++ {
 		w.Provs = append(w.Provs, Prov{Impl: "ts", Owner: -1, Frozen: r.IntN(2) == 0, Init: pickSome(r, u, 5)})
+	}
+	if big {
+		starts := []uint64{0, 1, 60000, 65000, 65536 - 5000, 1 << 20}
+		if w.Width == 64 {
+			starts = append(starts, 1<<32-3000, 1<<32, 1<<40)
+		}
+		for i := range w.Provs {
+			if r.IntN(3) > 0 {
+				w.Provs[i].Run = []uint64{starts[r.IntN(len(starts))], uint64([]int{4095, 4096, 4097, 4097, 5000, 5000, 8193, 8193, 12291, 66000}[r.IntN(10)]), uint64([]int{1, 1, 2, 3, 17}[r.IntN(5)])}
+			}
+		}
 	}
 	for c := 0; c < nc; c++ {
 		var recvMut, operands, readable []int
@@ -417,7 +445,7 @@ func mkProv[T uint32 | uint64](p Prov) cardinality.Duplex[T] {
 	default:
 		d = any(cardinality.NewBitmap64()).(cardinality.Duplex[T])
 	}
-	d.Add(conv[T](p.Init)...)
+	d.Add(conv[T](p.values())...)
 	if p.Impl == "ts" {
 		d = cardinality.ThreadSafeDuplex(d)
 	}
@@ -435,7 +463,7 @@ func run[T uint32 | uint64](t *testing.T, w WL, cfg simrt.Config) simh.Outcome {
 	)
 	uni := set{}
 	for _, p := range w.Provs {
-		for _, v := range p.Init {
+		for _, v := range p.values() {
 			uni[v] = struct{}{}
 		}
 	}
@@ -456,18 +484,18 @@ func run[T uint32 | uint64](t *testing.T, w WL, cfg simrt.Config) simh.Outcome {
 				own := map[int]set{}
 				for i, p := range w.Provs {
 					if p.Owner == ci {
-						own[i] = mkset(p.Init)
+						own[i] = mkset(p.values())
 					}
 				}
 				for _, op := range ops {
-					i := in{P: op.P, K: op.K, V: op.V, Init: w.Provs[op.P].Init}
+					i := in{P: op.P, K: op.K, V: op.V, Init: w.Provs[op.P].values()}
 					var operand cardinality.Duplex[T]
 					if op.Q >= 0 {
 						operand = provs[op.Q]
 						if m, ok := own[op.Q]; ok {
 							i.Operand = m.sorted()
 						} else {
-							i.Operand = mkset(w.Provs[op.Q].Init).sorted() // frozen
+							i.Operand = mkset(w.Provs[op.Q].values()).sorted() // frozen
 						}
 					}
 					call := s.Seq()
@@ -506,7 +534,7 @@ func run[T uint32 | uint64](t *testing.T, w WL, cfg simrt.Config) simh.Outcome {
 					alien = fmt.Sprintf("p%d holds %d at quiescence, which nobody ever added", pi, v)
 				}
 			}
-			all = append(all, porcupine.Operation{ClientId: len(w.Clients), Input: in{P: pi, K: k, Init: w.Provs[pi].Init}, Output: out, Call: seq, Return: seq + 1})
+			all = append(all, porcupine.Operation{ClientId: len(w.Clients), Input: in{P: pi, K: k, Init: w.Provs[pi].values()}, Output: out, Call: seq, Return: seq + 1})
 			seq += 2
 		}
 	}
@@ -522,6 +550,20 @@ func run[T uint32 | uint64](t *testing.T, w WL, cfg simrt.Config) simh.Outcome {
 	if w.Mode == "w2" {
 		counters["w2_runs"]++
 		return o // liveness + universe only: operands are mutated concurrently by design
+	}
+	if len(w.Clients) == 1 {
+		// one caller: the history is a sequence, compare operation by operation against the model
+		if d := firstBad(all); !strings.HasPrefix(d, "(needs") {
+			o.Class, o.Detail = "oracle:set_algebra", "history is not explained by the set model: "+d
+		}
+		counters["sequential_histories"]++
+		for _, p := range w.Provs {
+			if len(p.Run) == 3 && p.Run[1] > 4096 {
+				counters["large_set_runs"]++
+				break
+			}
+		}
+		return o
 	}
 	switch porcupine.CheckOperationsTimeout(model, all, 20*time.Second) {
 	case porcupine.Illegal:
@@ -546,17 +588,32 @@ func firstBad(all []porcupine.Operation) string {
 		before := s.sorted()
 		want := apply(s, i)
 		if !eqOut(want, o.Output.(outp)) {
-			return fmt.Sprintf("in call order, %s on %v should give %+v", model.DescribeOperation(o.Input, o.Output), before, want)
+			return trunc(fmt.Sprintf("in call order, p%d.%s(%v) with operand of %d values on a set of %d values returned %s, the set model gives %s", i.P, i.K, i.V, len(i.Operand), len(before), brief(o.Output.(outp)), brief(want)))
 		}
 	}
 	return "(needs a concurrent explanation; see sample)"
+}
+
+func trunc(s string) string {
+	if len(s) > 900 {
+		return s[:900] + "..."
+	}
+	return s
+}
+
+func brief(o outp) string {
+	if len(o.S) > 12 {
+		return fmt.Sprintf("{B:%v N:%d S:%d values %v...%v}", o.B, o.N, len(o.S), o.S[:4], o.S[len(o.S)-3:])
+	}
+	return fmt.Sprintf("%+v", o)
 }
 
 func render(ops []porcupine.Operation) []string {
 	sort.Slice(ops, func(i, j int) bool { return ops[i].Call < ops[j].Call })
 	var r []string
 	for _, o := range ops {
-		r = append(r, fmt.Sprintf("c%d [%d,%d] %s", o.ClientId, o.Call, o.Return, model.DescribeOperation(o.Input, o.Output)))
+		i := o.Input.(in)
+		r = append(r, trunc(fmt.Sprintf("c%d [%d,%d] p%d.%s(%v operand:%d values) -> %s", o.ClientId, o.Call, o.Return, i.P, i.K, i.V, len(i.Operand), brief(o.Output.(outp)))))
 	}
 	if len(r) > 60 {
 		r = r[:60]
@@ -607,5 +664,13 @@ func shrink(w WL) []WL {
 
 func TestSim(t *testing.T) {
 	simh.Main(t, simh.Harness[WL]{Property: "C13", Gen: gen, Exec: exec, Shrink: shrink,
-		Tune: func(w WL, cfg *simrt.Config) { cfg.MaxSteps = 20000; cfg.FairSteps = 20000 }})
+		Tune: func(w WL, cfg *simrt.Config) {
+			cfg.MaxSteps, cfg.FairSteps = 20000, 20000
+			for _, p := range w.Provs {
+				if len(p.Run) == 3 {
+					// element-wise fallbacks through a wrapper take one scheduling step per element
+					cfg.MaxSteps, cfg.FairSteps = 5000000, 5000000
+				}
+			}
+		}})
 }
